@@ -1270,7 +1270,7 @@ class Client:
                 + b" "
                 + key
                 + b" "
-                + str(data_flags).encode(self.encoding)
+                + self._check_integer(data_flags, "flags")
                 + b" "
                 + expire_bytes
                 + b" "
